@@ -126,6 +126,7 @@ func options() map[string][]fieldOpt {
 				add("[]", []string{})
 				add(`["a"]`, []string{"a"})
 				add(`["a","b"]`, []string{"a", "b"})
+				add(`["zz","a"]`, []string{"zz", "a"})
 			}
 		case "map[string]bool":
 			add("{}", map[string]bool{})
@@ -388,7 +389,9 @@ func Run(r *ev.Run) {
 		}
 		v1, _ := verdicts(&s, pool)
 		v2, _ := verdicts(&s2, pool)
-		if v1 != v2 {
+		if v1 == "resolve-error" {
+			r.Either()
+		} else if v1 != v2 {
 			r.Fail(key+" [meaning]", map[string]any{"class": "meaning changed by the round trip", "input": d, "output": string(b), "input_verdicts": v1, "output_verdicts": v2})
 		}
 		// R1 on the input document
